@@ -27,7 +27,7 @@ VERIF = os.path.dirname(os.path.dirname(os.path.abspath(__file__)))
 COQ = os.path.join(VERIF, "coq")
 GOH = os.path.join(VERIF, "goharness")
 WORK = os.path.join(VERIF, ".work")
-REPO = "/repo"
+REPO = os.environ.get("VERIF_REPO", "/repo")
 LOCK = os.path.join(VERIF, ".coq.lock")
 
 GOENV = dict(os.environ, GOFLAGS="-mod=mod", GOPROXY="off")
@@ -81,8 +81,17 @@ def strip_comments(src):
 
 # ---------------------------------------------------------------- go side
 
+def modfile_path():
+    # one module file per repository location, so that checks run against a
+    # scratch worktree (VERIF_REPO=...) never disturb checks run against /repo
+    tag = re.sub(r"[^A-Za-z0-9]+", "_", REPO).strip("_") or "root"
+    d = os.path.join(WORK, "gomod", tag)
+    os.makedirs(d, exist_ok=True)
+    return os.path.join(d, "go.mod")
+
+
 def prepare_go_module():
-    """goharness/go.mod mirrors /repo/go.mod's requirements on every run."""
+    """The harness module's go.mod mirrors REPO/go.mod's requirements on every run."""
     with open(os.path.join(REPO, "go.mod")) as f:
         repo_mod = f.read()
     goline = re.search(r"^go\s+\S+", repo_mod, re.M).group(0)
@@ -96,23 +105,31 @@ def prepare_go_module():
                 lines.append("\t" + l.strip())
     for s in single:
         lines.append("\t" + s)
-    lines += [")", "", "replace github.com/mutagen-io/mutagen => /repo", ""]
+    lines += [")", "", "replace github.com/mutagen-io/mutagen => " + REPO, ""]
     for m in re.findall(r"^replace\s+(.*)$", repo_mod, re.M):
         lines.append("replace " + m)
     new = "\n".join(lines) + "\n"
-    path = os.path.join(GOH, "go.mod")
+    path = modfile_path()
     old = open(path).read() if os.path.exists(path) else ""
     if old != new:
         with open(path, "w") as f:
             f.write(new)
-    shutil.copyfile(os.path.join(REPO, "go.sum"), os.path.join(GOH, "go.sum"))
+    shutil.copyfile(os.path.join(REPO, "go.sum"), path[:-3] + "sum")
+    # goharness/go.mod (used by editors and `go vet`) points at /repo
+    if REPO == "/repo":
+        gm = os.path.join(GOH, "go.mod")
+        if not os.path.exists(gm) or open(gm).read() != new:
+            with open(gm, "w") as f:
+                f.write(new)
+        shutil.copyfile(os.path.join(REPO, "go.sum"), os.path.join(GOH, "go.sum"))
 
 
 def build_harness(cmd):
-    os.makedirs(os.path.join(WORK, "bin"), exist_ok=True)
-    out = os.path.join(WORK, "bin", cmd)
-    rc, o = sh(["flock", os.path.join(VERIF, ".go.lock"), "go", "build", "-tags", "verif", "-o", out, "./cmd/" + cmd],
-               cwd=GOH, env=GOENV, timeout=1200)
+    tag = os.path.basename(os.path.dirname(modfile_path()))
+    os.makedirs(os.path.join(WORK, "bin", tag), exist_ok=True)
+    out = os.path.join(WORK, "bin", tag, cmd)
+    rc, o = sh(["go", "build", "-modfile", modfile_path(), "-tags", "verif", "-o", out, "./cmd/" + cmd],
+               cwd=GOH, env=GOENV, timeout=1800)
     return rc, o, out
 
 
@@ -247,7 +264,10 @@ def run_harness(prop, tier, seed, outdir, replay=None):
     if replay:
         cmd += ["-replay", replay]
     env = dict(GOENV, VERIF_REPO=REPO, VERIF_DIR=VERIF)
-    rc, o = sh(cmd, cwd=GOH, env=env, timeout=h.get("timeout_s", 3000))
+    try:
+        rc, o = sh(cmd, cwd=GOH, env=env, timeout=h.get("timeout_s", 900 if tier == "quick" else 6000))
+    except subprocess.TimeoutExpired:
+        return None, "harness run timed out"
     if rc != 0:
         return None, "harness run failed (exit %d):\n%s" % (rc, o[-3000:])
     with open(os.path.join(outdir, "meta.json")) as f:
@@ -420,7 +440,15 @@ def main(argv):
             if kf.get("class") == cls:
                 known_lines.append("KNOWN-FINDING: property=%s %s (%d cases in class %s this run)" % (pid, kf["what"], len(idxs), cls))
 
-    if viol_cases:
+    crashes = (meta or {}).get("crashes") or []
+    if crashes:
+        cr = crashes[0]
+        path = write_replay(pid, "failing-input", {
+            "case": cr.get("case"), "crash": cr.get("kind"), "detail": cr.get("detail"),
+            "meaning": "the implementation panicked or did not return on this case (watchdog in the harness)",
+            "seed": seed, "tier": tier, "crashes": len(crashes)})
+        violations.append((path, ""))
+    elif viol_cases:
         # report the smallest failing case of this run (cheap minimisation)
         best = None
         for idx, v in viol_cases[:300]:
@@ -486,11 +514,11 @@ def main(argv):
             "evaluations": meta.get("evaluations", 0),
             "distinct_nontrivial": meta.get("distinct_nontrivial", 0),
             "rule": meta.get("rule", ""),
-            "samples": meta.get("samples", [])[:6],
+            "samples": (meta.get("samples") or [])[:6],
             "distribution": meta.get("distribution", {}),
             "origins": meta.get("origins", {}),
             "model_vs_impl_disagreements": len(corr_cases) + sum(1 for _, v in viol_cases if v & 1),
-            "checker_failures_on_impl": len(viol_cases),
+            "checker_failures_on_impl": len(viol_cases) + len(crashes),
             "known_finding_cases": sum(len(v) for v in known_hits.values()),
             "eval_s": meta.get("eval_s"),
         })
@@ -507,8 +535,10 @@ def main(argv):
         "wall_s": round(wall, 2), "violations": len(violations),
     }
     if not replay:
-        os.makedirs(os.path.join(VERIF, "evidence"), exist_ok=True)
-        with open(os.path.join(VERIF, "evidence", pid + ".json"), "w") as f:
+        # runs against a scratch copy of the repository never touch evidence/
+        evdir = os.path.join(VERIF, "evidence") if REPO == "/repo" else os.path.join(WORK, "evidence-scratch")
+        os.makedirs(evdir, exist_ok=True)
+        with open(os.path.join(evdir, pid + ".json"), "w") as f:
             json.dump(ev, f, indent=1)
             f.write("\n")
     shutil.rmtree(rundir, ignore_errors=True)
